@@ -17,6 +17,7 @@ def _wr(oracle, tier="quick"):
     for clen in (0, 2):
         for kind, dm in (("code", 0), ("code", 1), ("data", 0)):
             out.append({"fn": "w_interval", "consts": {"oracle": oracle, "clen": clen, "kind": kind, "dm": dm}, "timeout": 900})
+    out.append({"fn": "w_interval", "consts": {"oracle": oracle, "clen": 1, "kind": "data", "dm": 0}, "timeout": 900})     # stored bytes end in 0x00
     # every enum constant once (others at a non-default constant so that a swapped field shows)
     n = max(len(P.ISAS), len(P.FFS), len(P.BOS))
     for i in range(n):
@@ -54,6 +55,7 @@ def shards(tier):
     out = _wr("writer", tier)
     out.append({"fn": "header", "consts": {"oracle": "writer"}, "timeout": 300})
     out.append({"fn": "w_oversize", "consts": {"oracle": "writer"}, "timeout": 300})
+    out.append({"fn": "w_aux_renamed", "consts": {"oracle": "writer"}, "timeout": 600})
     for kind, dm in (("code", 0), ("code", 1), ("data", 0)):
         out.append({"fn": "r_interval", "consts": {"oracle": "reader", "kind": kind, "dm": dm}, "timeout": 900})
     for which in ("isa", "ff", "bo"):
